@@ -69,6 +69,7 @@ typedef struct fx {
     int ciA, ciB, ciStale, ciEnd, ciAlloc;
     vnacal_new_t *vnpL, *vnpS, *vnpR;
     vnacal_new_t *vnpT16, *vnpU16;	/* live, one partial-S standard each */
+    vnacal_new_t *vnpT16M;	/* T16 2x2 with an m_error model, no standards */
     vnacal_new_t *vnpA3, *vnpA5, *vnpA1;	/* solvable T8 1x1 objects with 3, 5
 					   and 1 frequencies sharing p_shared
 					   (unknown) and p_sharedc (correlated) */
@@ -90,9 +91,10 @@ typedef struct fx {
 } fx_t;
 
 /* the vnacal_new_t objects of the fixture, by variant number */
-enum { VN_L, VN_R, VN_T16, VN_U16, VN_S, VN_A5, VN_A3, VN_A1, VN_N };
+enum { VN_L, VN_R, VN_T16, VN_U16, VN_S, VN_A5, VN_A3, VN_A1, VN_T16M, VN_N };
 static const char *const vn_name[VN_N] = {
-    "vnpL", "vnpR", "vnpT16", "vnpU16", "vnpS", "vnpA5", "vnpA3", "vnpA1"
+    "vnpL", "vnpR", "vnpT16", "vnpU16", "vnpS", "vnpA5", "vnpA3", "vnpA1",
+    "vnpT16M"
 };
 static vnacal_new_t **fx_vnpp(fx_t *F, int v)
 {
@@ -104,6 +106,7 @@ static vnacal_new_t **fx_vnpp(fx_t *F, int v)
     case VN_S:   return &F->vnpS;
     case VN_A5:  return &F->vnpA5;
     case VN_A3:  return &F->vnpA3;
+    case VN_T16M: return &F->vnpT16M;
     default:     return &F->vnpA1;
     }
 }
@@ -361,6 +364,13 @@ static const char *fx_build(fx_t *F)
 	    vnacal_new_add_single_reflect_m(F->vnpU16, F->mp, 2, 1,
 		VNACAL_SHORT, 1) != 0)
 	return "add to 16-term objects";
+    /* a 16-term object with the measurement-error model enabled: every
+       standard must then cover all ports (vnacal_new(3)) */
+    F->vnpT16M = vnacal_new_alloc(F->vcp, VNACAL_T16, 2, 2, NF);
+    if (F->vnpT16M == NULL ||
+	    vnacal_new_set_frequency_vector(F->vnpT16M, F->f3) != 0 ||
+	    vnacal_new_set_m_error(F->vnpT16M, NULL, 1, F->sig5, NULL) != 0)
+	return "16-term object with m_error";
     /* three solvable objects of different length sharing unknowns */
     if ((F->vnpA3 = fx_build_A(F, F->f3, 3)) == NULL ||
 	    (F->vnpA5 = fx_build_A(F, F->f5, 5)) == NULL ||
